@@ -349,6 +349,7 @@ class KernelAnalysis(FlowAnalysis):
         self.mode = mode
         self.record_calls = False
         self.calls = []           # (call node, callee Func, mode term, [(param, value)], world)
+        self.tuples = []          # (4-tuple display node, world)
         self.returns = []         # (node, frozenset classes)
         self.sites = []           # context layer: (node, expr, classes)
 
@@ -512,6 +513,8 @@ class KernelAnalysis(FlowAnalysis):
                                  self.as_classes(b, 'tuple element %s' % norm(e.elts[1], 30)))])
             return UNKNOWN
         if n == 4:
+            if getattr(self, 'record_calls', False):
+                self.tuples.append((e, w))
             man = e.elts[1]
             bc = e.elts[3]
             # power of two / small literal
@@ -1124,7 +1127,7 @@ class KernelAnalysis(FlowAnalysis):
                 for i, nm in enumerate(names):
                     if nm is None:
                         continue
-                    w = w.set(nm, ('man', src.id) if i == 1 else UNKNOWN)
+                    w = w.set(nm, ('man', src.id) if i == 1 else ('fld', src.id, i))
                 if self.zero_man(w, src.id) and names[1]:
                     w = w.fact(('f', names[1])) or w
                 return w
@@ -1421,6 +1424,7 @@ class RoundEngine(object):
         """context-layer method: operands are unbounded, (prec, rounding) come
         from the context"""
         ka = KernelAnalysis(self, f, mode='context')
+        ka.record_calls = True
         env = {}
         for p in f.all_params():
             if p in ('prec',):
